@@ -5,17 +5,19 @@ DUT: the real luna.gateware.usb.usb3.link.ltssm.LTSSMController, stand-alone, wi
 2 ms / 12 ms / 360 ms timeouts are 50.. / 300.. / 9000.. cycles (ratio 1 : 6 : 180 preserved; 33.333 kHz makes the
 products non-integral), both `loosen_requirements` settings.
 
-Workload (one case = one session of 8k-60k cycles): a reactive PHY / link-partner model that looks at the LTSSM's
+Workload (one case = one session of 8k-36k cycles): a reactive PHY / link-partner model that looks at the LTSSM's
 *outputs* only and answers every phase (receiver detection, LFPS polling with a running `lfps_cycles_sent`, TSEQ burst,
 TS1 / TS2 detections and burst completions, idle handshake) after random delays; per phase it may instead go silent
 (so that every timed substate times out), answer only partially (TS1 but never TS2, bursts but no detections, TS1
-instead of LFPS), request hot reset / loop-back / no-scrambling, or inject a warm reset (`in_usb_reset`, 1..600 cycles)
+instead of LFPS, TS2s seen early during our TSEQ phase and never again), request hot reset / loop-back / no-scrambling,
+or inject a warm reset (`in_usb_reset`, 1..600 cycles)
 at a random offset or exactly on the cycle of its own answer.  In U0 it dwells, then starts recovery (own trigger or a
 TS1), resets, or toggles the local `disable_scrambling` request.  On top, per case, a random subset of the inputs
 carries noise (random pulses up to a constant level: idle-handshake-complete in every state, `ts_burst_complete`
 storms, TS2 before polling, reset glitches).  Profiles: cooperative, silent, resets, hostile, scramble, hotreset.
 
-Monitor: every cycle samples all inputs and outputs; the *state signature* is inferred from the output vector
+Monitor: every cycle samples all outputs (through one concatenated wrapper signal) and takes the inputs it drove for
+that cycle; the *state signature* is inferred from the output vector
 (OFF, DETECT, QUIET, LFPS, TSEQ, TS1, TS2, IDLE, U0, LOOPBACK) -- no FSM internals are read.
 
 Oracle (independent milestone tracker, written from the property statement and USB 3.2 chapter 7.5):
@@ -34,6 +36,24 @@ Oracle (independent milestone tracker, written from the property statement and U
  (4) in U0 `enable_scrambling` = not(own request or partner request), own request = `disable_scrambling` at the entry
      of the last training (also compared with the `request_no_scrambling` output that is sent to the partner), partner
      request = `no_scrambling_requested` seen during the last training.
+
+Findings on the unchanged tree (known_findings.d/C41.json, findings/C41.md): warm reset ignored in Polling.LFPS; warm
+reset overridden by any transition taken in the same cycle; U0 entered in the cycle after reset + idle handshake.  The
+classifier is narrow: an ignored reset is "known" only if it ended in the LFPS signature after beginning in a signature
+whose states never look at `in_usb_reset` (LFPS / receiver detection / quiet), or if the signature changed in the very
+reset cycle (or `ts_burst_complete` hit the TS2 state in that cycle), and only if the partner detection is among the lost
+milestones; "U0 during reset" is known only for a reset that had not already been seen in the idle signature.
+
+Validation (mutations of ltssm.py, each passing the repository tests that can import it; all caught by <= 64 quick
+cases): DESIGN set -- Polling.Idle -> U0 without handshake; no warm-reset handling in U0; 12 ms -> 120 ms in
+Polling.Active / Recovery.Configuration / Hot Reset.Active / SS.Inactive.Quiet.  Own -- stale ts2_seen on Recovery.Active,
+Polling.Active and Hot Reset.Active entry; Hot Reset.Active / Polling.Configuration exit without ts2_seen; no reset
+handling in Recovery.Idle / Hot Reset.Exit / Polling.Configuration; Rx.Detect.Reset not waiting for the reset to end;
+Recovery.Idle 2 -> 12 ms, Polling.Idle 2 -> 3 ms, 360 -> 3600 ms; time-in-state counter not cleared on transitions;
+U0 scrambling without the partner term / without the own term / from the live input; stale partner request and stale
+own request on recovery; strict mode accepting TS1 for LFPS; LFPS exit without a received burst; Rx.Detect.Quiet ->
+Polling.LFPS; RxEQ left on tseq_detected; Configuration.Exit -> U0; link_ready already in Recovery.Idle; Hot Reset.Exit
+-> U0 without handshake.
 
 Deviations from DESIGN.md: the frequencies are lower than the 1e5..1e6 Hz of the design (cost; the structure is the
 same); the TS2 signature merges a timed and an untimed sub-state, so only its handshake phase is timed.
@@ -55,7 +75,7 @@ PROPERTY = "C41"
 CASES = {"quick": 256, "thorough": 5000}
 TIMEOUT = {"quick": 900, "thorough": 6 * 3600}
 RULE = ("case = (ss clock 25k/33.3k/50k/100k[/250k] Hz, loosen_requirements, profile cooperative|silent|resets|hostile|"
-        "scramble|hotreset, per-input noise rates) + session of 8k-60k cycles of a reactive PHY/partner model that answers, "
+        "scramble|hotreset, per-input noise rates) + session of 8k-36k cycles of a reactive PHY/partner model that answers, "
         "stays silent, answers partially or resets in every phase; non-trivial = U0 reached and >=1 time-out and >=1 warm "
         "reset outside the reset state; distinct = hash of configuration and every per-phase decision of the partner")
 SIGS = ("OFF", "DETECT", "QUIET", "LFPS", "TSEQ", "TS1", "TS2", "IDLE", "U0", "LOOPBACK")
@@ -473,6 +493,7 @@ class Partner:
         self.hot_level_until = None
         self.allow_lfps_timeout = True
         self.early_ts2 = False
+        self.in_hot = False
         # per-case noise
         self.noise = {}
         cands = ["idle_handshake_complete", "ts_burst_complete", "ts2_detected", "ts1_detected", "lfps_polling_detected",
@@ -581,6 +602,7 @@ class Partner:
                 # a partner that is ahead: its TS2s are seen during our TSEQ phase -- and possibly never again
                 self.pulse("ts2_detected", r.randint(0, 50), self.width(), r.randint(3, 30), r.randint(1, 20))
         elif sig == "TS1":
+            self.in_hot = False
             dwell = T12 if silent else 60
             kind = "both"
             if silent:
@@ -607,6 +629,9 @@ class Partner:
             self.training_extras(0)
         elif sig == "TS2":
             hot = prev == "IDLE"
+            self.in_hot = hot
+            if hot and not silent and r.random() < 0.1:
+                silent = True
             dwell = T12 if silent else 40
             kind = "both"
             if silent:
@@ -632,6 +657,9 @@ class Partner:
                 # prescient idle handshake: already reported when the idle state is entered
                 self.pulse("idle_handshake_complete", r.randint(0, 30), r.randint(1, 400), 0, 1)
         elif sig == "IDLE":
+            if self.in_hot and r.random() < 0.15:
+                silent = True                    # Hot Reset.Exit is rare: let it time out often enough
+            what = "silent" if silent else what
             dwell = T2 if silent else 20
             if not silent:
                 t0 = r.choice([0, 1, r.randint(0, 30), r.randint(0, T2 + 10)])
